@@ -178,3 +178,18 @@ CHECKS["C04"] = {
     "note": TRUST + " A server-side refusal is a clean 500 that carries none of the supplied text; the Date field is masked; set_eof() is excluded from the compressed "
             "writer modes and nothing is written after an end-of-message op (documented contract).",
 }
+
+CHECKS["C19"] = {
+    "engine": "STREAM",
+    "design_ref": "§3 C19, §2.5",
+    "technique": "exhaustive part-list x segmentation enumeration through the real MultipartWriter/FormData and MultipartReader + every single-byte mutation / truncation for termination",
+    "text": "roundtrip: about 500 part lists (every single part over 17 contents - boundary look-alikes, CR/LF tails, sizes at the 8192/16384 thresholds - x transfer "
+            "encoding {none, base64, quoted-printable, binary} x content encoding {none, gzip, deflate}, header and Content-Disposition variants with quotes, spaces, "
+            "percent signs and non-ASCII names, every ordered pair (triple in thorough) of a core set, nested and FormData bodies) are serialised by the real writer "
+            "and fed to a real StreamReader under every single cut and byte-at-a-time (<= 400 bytes) or every cut within 6 bytes of a boundary and at the chunk "
+            "thresholds, and read back through read(decode), read_chunk(64 / 8192)+decode, readline and release; parts, headers, names, filenames and content must "
+            "equal the input, size must equal the bytes written.  termination: every single-byte deletion, duplication, substitution (6 symbols) and truncation of 5 "
+            "small bodies x 3 reading modes must end in parts or an error within the step horizon.  limits: header size/count and client_max_size cases x cuts.",
+    "note": TRUST + " Contents that contain the delimiter at a line start are not valid multipart material and are excluded; a name or filename may come back "
+            "percent-encoded if it decodes to the original; every reader run is under a wall-clock deadline (a loop becomes a violation).",
+}
